@@ -56,7 +56,8 @@ def gen_configs(rng, n):
                 opts["buffer_ntrain"] = rng.choice([170, 180, 185])     # noisy modes raise n_train_max to >= 200
                 opts["gp_radius"] = rng.choice([0.3, 0.5, 1.0])          # few points within the radius
         cfgs.append(dict(mode=mode, D=D, budget=budget, seed=rng.randrange(1, 10 ** 6), fun=rng.choice(["bowl", "rosen", "abs"]),
-                         sd=rng.choice([0.05, 0.1, 0.3]), hetero=rng.random() < 0.5, opts=opts, sample=6))
+                         sd=rng.choice([0.05, 0.1, 0.3]), hetero=rng.random() < 0.5, opts=opts, sample=6,
+                         upd_fault_every=(3 if i % 4 == 2 else 0)))
     return cfgs
 
 
@@ -145,6 +146,19 @@ def run_one(cfg):
 
     o_gsn, o_udist, o_lgf, o_add = G.get_grid_search_neighbors, G.udist, B.local_gp_fitting, B.add_and_update_gp
     o_lcb_b, o_lcb_es, o_call, o_fit = B.acq_fcn_lcb, ES.acq_fcn_lcb, FunctionLogger.__call__, gpyreg.GP.fit
+    o_upd = gpyreg.GP.update
+    upd = dict(n=0, faulted=0)
+    upd_every = int(cfg.get("upd_fault_every", 0))      # C15 after a FAILED posterior update: every k-th direct gp.update(hyp=...) of
+                                                        # local_gp_fitting raises LinAlgError once 20 points are logged (what a Cholesky failure does)
+
+    def w_upd(self, *a, **k):
+        if upd_every and sys._getframe(1).f_code.co_name == "local_gp_fitting":
+            upd["n"] += 1
+            fl = st["fl"]
+            if upd["n"] % upd_every == 0 and fl is not None and fl.Xn >= 20:
+                upd["faulted"] += 1
+                raise np.linalg.LinAlgError("injected posterior-update fault %d" % upd["n"])
+        return o_upd(self, *a, **k)
 
     def w_udist(*a, **k):
         d = o_udist(*a, **k)
@@ -328,6 +342,7 @@ def run_one(cfg):
     B.acq_fcn_lcb, ES.acq_fcn_lcb = mk_lcb(o_lcb_b, "bads"), mk_lcb(o_lcb_es, "es")
     FunctionLogger.__call__ = w_call
     gpyreg.GP.fit = w_fit
+    gpyreg.GP.update = w_upd
     exc = None
     res = {}
     try:
@@ -344,7 +359,9 @@ def run_one(cfg):
         B.acq_fcn_lcb, ES.acq_fcn_lcb = o_lcb_b, o_lcb_es
         FunctionLogger.__call__ = o_call
         gpyreg.GP.fit = o_fit
+        gpyreg.GP.update = o_upd
     stats["s2_det"] = sorted(stats["s2_det"])
+    stats["update_faults_injected"] = upd["faulted"]
     return dict(cfg=cfg, stats=stats, violations=viol, exc=exc, result=res, gsn_events=gsn_events)
 
 
